@@ -1,15 +1,15 @@
 \* C48/C14 E1, plan level: scheduled tasks + caller participation <= maxThreads, distinct state slots, for every option combination (state space cut after Call)
 CONSTANTS
   Orig = {}
-  PoolSizes = {0, 1, 2, 3, 4}
-  Lens = {0, 1, 2, 3, 4, 5, 7, 8, 9, 12}
+  PoolSizes = {0, 1, 2, 3}
+  Lens = {0, 1, 2, 3, 5, 8}
   Modes = {"static", "auto", "chunk"}
-  Chunks = {1, 2, 3, 5}
-  MaxThreads = {0, 1, 2, 3, 4, 5, 6}
+  Chunks = {1, 2, 3}
+  MaxThreads = {0, 1, 2, 3, 5}
   Waits = {TRUE, FALSE}
-  Grans = {1, 2, 3, 4}
-  MinItems = {1, 2, 3}
-  Reuses <- ReuseAll
+  Grans = {1, 2, 3}
+  MinItems = {1, 2}
+  Reuses <- ReuseTwo
   InPool = FALSE
   SeqOnly = TRUE
 SPECIFICATION Spec
